@@ -92,6 +92,12 @@ template<class R> static bool run_case(const std::vector<std::string> &f, std::o
             out << "hdr=" << (header_ok(hdr) ? 1 : 0) << " lines=" << scan_lines(body.c_str())
                 << " ret=" << ret << " A=" << dump_root(*A) << " B=" << dump_root(*B)
                 << " fresh=" << (header_ok(h2) ? "" : "BADHDR") << scan_lines(b2.c_str());
+            // the text of the body, line by line (sorted, hex): compared with the printer's model
+            auto bl = body_lines(body);
+            std::vector<std::string> hx;
+            for(auto &l : bl) hx.push_back(hex(l.data(), l.size()));
+            std::sort(hx.begin(), hx.end());
+            out << " body=" << join(hx, "|") << " cls=- cond=-";
         } else {
             if(f.size() < 5) return false;
             auto ls = body_lines(body);
